@@ -3,6 +3,11 @@ import json, os
 VERIF = os.path.dirname(os.path.dirname(os.path.abspath(__file__)))
 
 CLAIMED = {
+ 'C01': dict(
+  text="Unbounded deductive proof (Verus/Z3) of the seq discipline of every continuity-stream writer, on the function text extracted from /repo on every run: each append_* reads the next seq and advances it through ONE lock guard with the truth-log append in between; the frame carries exactly the reserved (stream, seq); the counter moves by exactly +1 and only after the append succeeded; next-seq recovery (load_next_seq_for) returns last+1. Encoded with timeless facts reserved/appended/advanced and stub preconditions on EventLog::append and the counter map; holds for all inputs and, because a fresh guard has an unconstrained view, for all interleavings the Mutex permits. Findings F4 (create/branch/handoff publish a thread before its counter is set) are reported as KNOWN-FINDING.",
+  note="Trusted: std::sync::Mutex excludes (a guard's view is stable while held); stub contracts of EventLog::append, the sidecar tail reader and replay_events (cache fidelity is C04/C05); Uuid freshness; rules R1,R2,R9 (format! replaced by an opaque string); stub ContinuityStore struct with the real field names. Not decided: cross-restart histories, session/task stream writers not yet under contract, byte-level interleaving inside EventLog::append.",
+  technique="Verus contracts with ghost timeless facts and effect-constraint preconditions on mechanically extracted ContinuityStore writers",
+  ref="§4 C01"),
  'C20': dict(
   text="Unbounded deductive proof (Verus/Z3) over the real FrameStore code extracted from /repo on every run: representation invariant (1 <= capacity, len <= capacity) after every operation, exact view equation for push (evict-oldest-then-append), and lookup-by-seq returns a frame carrying exactly the requested seq or nothing, for every capacity, push history (gaps, repeats, any order) and queried seq; all arithmetic/index safety obligations discharged. Partial: the 40-arm TuiState::update fold and the CLI renderers are not under contract.",
   note="Trusted: assumed contracts of VecDeque::is_empty/get (assume_specification), vstd's VecDeque/Option specs, a stub Event with the real field names (only `seq` is read), extraction rules R1/R2, Verus+Z3+rustc. Not decided: TuiState::update, render/summary code, determinism beyond 'no clock/RNG stub is called'.",
